@@ -57,6 +57,27 @@ def run_seq(jobs):
     return [run_scen(j) for j in jobs]
 
 
+def run_lonlat(job):
+    """A release given by longitude/latitude on a loaded window with unequal offsets, bounds-checked."""
+    from harness.props.c16 import polar_grid, run_e2e
+    from ladim.sample import sample2D
+    use_repo()
+    r = np.random.RandomState(job["seed"])
+    dx = job["dx"]; imax, jmax = 40, 30
+    lon, lat = polar_grid(imax, jmax, dx, xp=float(r.uniform(-100, 200)) * 4000 / dx, yp=float(r.uniform(600, 1200)) * 4000 / dx, ylon=float(r.uniform(0, 60)))
+    sub = job["subgrid"]
+    tg = []
+    for _ in range(6):
+        # also close to the northern and eastern edges of the window
+        x = float(r.uniform(sub[0] + 1.0, sub[1] - 2.5)); y = float(r.uniform(sub[2] + 1.0, sub[3] - 2.5))
+        tg.append((float(sample2D(lon, np.array(x), np.array(y))), float(sample2D(lat, np.array(x), np.array(y)))))
+    try:
+        g = run_e2e(dict(lon=lon, lat=lat, dx=dx, subgrid=sub, layout="sparse", targets=tg, numrec=0))
+        return dict(status=g.get("status"))
+    except Exception as e:  # noqa: BLE001
+        return dict(status=type(e).__name__ + ": " + str(e)[:120])
+
+
 def run_kernel(job):
     """Direct kernel calls at valid-region and clipped positions on a random window."""
     use_repo()
@@ -86,7 +107,7 @@ def run_kernel(job):
 def main_():
     job = json.loads(sys.stdin.read())
     out = dict(scen=pmap(run_scen, job["scen"]), kernel=pmap(run_kernel, job["kernel"], warm=False),
-               seq=pmap(run_seq, job.get("seq", []), chunksize=1))
+               seq=pmap(run_seq, job.get("seq", []), chunksize=1), lonlat=pmap(run_lonlat, job.get("lonlat", [])))
     print("@@RESULT@@" + json.dumps(out))
 
 
